@@ -2,7 +2,9 @@ import NasdaqModel.Py.Basic
 /-
 `SessionMachine`: a task-level model of `common/session.py` (AsyncSession, Reader, HeartbeatMonitor),
 `common/message_queue.py` (DispatchableMessageQueue) and `common/utils.py` (stop_task), as they are after the
-fix: commits 88ac483 / f00cdb5 / 74ae72f / 47a8e34 / 3767366 / f58394d, plus the login procedures of soup/fix client sessions.
+fix: commits 88ac483 / f00cdb5 / 74ae72f / 47a8e34 / 3767366 / f58394d, plus the login procedures of soup/fix client sessions,
+and with the repair of C04-late-cancel-loses-message (`DispatchableMessageQueue._unclaimed`: the message held by the helper task of a
+receive that is cancelled late is kept for the next reader — `get_nowait()` and the dispatcher loop read it before the asyncio queue).
 
 * One *event* = one atomic piece of work: an external event (bytes arrive, peer disconnects, a user call starts,
   a user cancels a pending call) or `run t` — task `t` runs from its current await to its next real suspension.
@@ -136,8 +138,10 @@ structure St where
   consumed : List Frame := []     -- frames the reader has taken out of its buffer
   recvd : List Nat := []          -- messages the reader has put on the queue
   gone : List (Nat × Bool) := []  -- messages that left the queue for good, in order: `(n, true)` handed to a consumer (message
-                                  -- callback entered, receive returned, login reply consumed), `(n, false)` dropped by a late
-                                  -- cancel of a receive (known finding)
+                                  -- callback entered, receive returned, login reply consumed).  `(n, false)` = dropped: no
+                                  -- transition produces it any more (`St.lost = []` is an invariant, `InvG.lost` in `Lemmas/SessionLemmas3.lean`);
+                                  -- it was the late cancel of a receive before the repair (`Witness/C04Late.lean` keeps that
+                                  -- transition as a regression witness)
   deriving Inhabited
 
 inductive Ev where
@@ -157,7 +161,7 @@ inductive Ev where
 
 /-- messages handed to a consumer, in order -/
 def St.taken (s : St) : List Nat := (s.gone.filter (·.2)).map (·.1)
-/-- messages dropped by a late cancel -/
+/-- messages dropped (by the late cancel of a receive, before the repair): always empty now -/
 def St.lost (s : St) : List Nat := (s.gone.filter (fun p => !p.2)).map (·.1)
 
 /-! ### small state algebra -/
@@ -390,15 +394,26 @@ def stepRun (cfg : Cfg) (s : St) (t : Tid) : St :=
     | .vget => s.finish t                                    -- the helper task ends cancelled, holding nothing
     | .recvWait u =>
         -- `except CancelledError` in `_blocking_read`: EndOfQueue if the queue was stopped meanwhile, else re-raise.
-        -- Late cancel (the helper already holds a message): the caller gets the cancellation, the message is lost.
-        -- (`if self._closed` is tested whether or not the helper already holds a message: that message is lost either way)
-        if s.qClosed then ({ s with vres := none, rcvBusy := false, gone := s.gone ++ s.vres.toList.map (fun n => (n, false)) }.emit (.ret u .eoq)).finish t
-        else ({ s with vres := none, rcvBusy := false, gone := s.gone ++ s.vres.toList.map (fun n => (n, false)) }.emit (.ret u .cancelled)).finish t
+        -- Late cancel (the helper already holds a message, `vres = some n`): the caller gets the cancellation (or
+        -- EndOfQueue) and the message is appended to `_unclaimed`, the stash that `get_nowait()` and the dispatcher
+        -- loop read *before* the asyncio queue (repair of C04-late-cancel-loses-message).  The stash is modelled as
+        -- the queue with the message re-inserted at its head.  The two are observationally the same because nothing
+        -- else can be suspended on the asyncio queue at this moment (proved for open sessions: `Lemmas/SessionDrainInv.lean`, `stash_no_getter`, via the invariant `JB`; on a stopped queue the dispatcher loop has ended and `get_nowait()` is the only reader):
+        --  * the helper `V` of this receive has ended (it is what filled `vres`) or never existed (`get_nowait` path);
+        --    a second helper needs a second receive, which cannot start while `rcvBusy` (single consumer);
+        --  * the dispatcher is not suspended in `queue.get()`: a receive only starts while `_dispatcher_task is None`,
+        --    and a dispatcher created next to the pending receive (API misuse) takes no step while `rcvBusy`;
+        --  * `_unclaimed` never holds more than one message (a blocking read starts only when `get_nowait` found both
+        --    the stash and the queue empty), so "append to the stash" = "insert at the head of stash ++ queue".
+        -- The caller's clean-up (`finally: stop_task(helper)`) does not suspend on a finished helper, so no other
+        -- task runs between the stash and the end of the call.
+        if s.qClosed then ({ s with vres := none, rcvBusy := false, queue := s.vres.toList ++ s.queue }.emit (.ret u .eoq)).finish t
+        else ({ s with vres := none, rcvBusy := false, queue := s.vres.toList ++ s.queue }.emit (.ret u .cancelled)).finish t
     | .loginWait u =>
-        if s.qClosed then ({ s with vres := none, rcvBusy := false, gone := s.gone ++ s.vres.toList.map (fun n => (n, false)) }.emit (.ret u .refused)).finish t
+        if s.qClosed then ({ s with vres := none, rcvBusy := false, queue := s.vres.toList ++ s.queue }.emit (.ret u .refused)).finish t
         else
           -- `login()`: `except CancelledError: await self.close(); raise`
-          enterClose cfg ({ s with vres := none, rcvBusy := false, gone := s.gone ++ s.vres.toList.map (fun n => (n, false)) }.setStatus t .ready) t (.userTail u .cancelled)
+          enterClose cfg ({ s with vres := none, rcvBusy := false, queue := s.vres.toList ++ s.queue }.setStatus t .ready) t (.userTail u .cancelled)
     | .inClose => stepInClose cfg s t true
     | _ => s.finish t                                          -- reader / dispatcher / monitors end
   | .ready =>
